@@ -63,6 +63,25 @@ func runC11(c *ctxT) {
 			}
 		}
 	}
+	// directed: a TTL pod is away for most of its TTL, returns (the record is re-bound to it), and leaves again:
+	// the TTL runs from the second departure, whatever the record carried before
+	if c.Batch == 1%max(c.NBatch, 1) {
+		id := 0
+		for _, trunk := range []bool{true, false} {
+			for _, first := range []time.Duration{47 * time.Hour, 30 * time.Hour} {
+				id++
+				hid := 830000 + id
+				fmt.Printf("CASE C11 directed-ttl %d trunk=%v first-absence=%s\n", hid, trunk, first)
+				h := newPeHist(c, "C11", hid, peCfg{Trunk: trunk, Names: 1}, int64(hid))
+				sp := h.mon.spec["p0"]
+				sp.Fixed, sp.Owner, sp.NIfs = "ttl-long", "StatefulSet", 1
+				c11ScriptTTLAcrossReturn(h, first)
+				c.R.Eval(1)
+				c.R.Count("directed_ttl_across_return_cases", 1)
+				h.finish(c.R)
+			}
+		}
+	}
 	runPeHistories(c, "C11", nHist, 64, func(rng *rand.Rand) peCfg {
 		cfg := genPeCfg(rng)
 		cfg.FixedBias = true
@@ -244,7 +263,17 @@ func c11InterfaceCase(c *ctxT, hid int, rng *rand.Rand) {
 		}
 	}
 	before := h.cloud.Snapshot()
+	if hid%3 == 0 {
+		// the collector cannot list the records in this pass: it knows of no reference, and must not act on that
+		h.apiMu.Lock()
+		h.listFlt = 2
+		h.apiMu.Unlock()
+		c.R.Count("directed_interface_cases_with_failed_record_list", 1)
+	}
 	h.gcInterfaces()
+	h.apiMu.Lock()
+	h.listFlt = 0
+	h.apiMu.Unlock()
 	after := h.cloud.Snapshot()
 	for _, pl := range plans {
 		b, a := before.ENIs[pl.id], after.ENIs[pl.id]
@@ -266,6 +295,46 @@ func c11InterfaceCase(c *ctxT, hid int, rng *rand.Rand) {
 	}
 	c.R.Eval(1)
 	c.R.Count("directed_interface_cases", 1)
+}
+
+// c11ScriptTTLAcrossReturn: TTL 48h; away for `first`, back, away for 20h (so that both absences together exceed
+// the TTL and neither alone does): every collector pass on the way must keep the record.
+func c11ScriptTTLAcrossReturn(h *peHist, first time.Duration) {
+	leave := func() {
+		h.mon.mu.Lock()
+		p := h.mon.cur["p0"]
+		h.mon.mu.Unlock()
+		h.remove(p)
+		for i := 0; i < 3; i++ {
+			h.deliverPod("p0")
+			h.deliverENI("p0")
+		}
+	}
+	arrive := func() {
+		h.createPod("p0")
+		for i := 0; i < 3; i++ {
+			h.deliverPod("p0")
+			h.deliverENI("p0")
+		}
+	}
+	arrive()
+	leave()
+	h.elapse(first)
+	h.gcRecords()
+	arrive()
+	leave()
+	h.elapse(20 * time.Hour)
+	h.gcRecords()
+	for i := 0; i < 2; i++ {
+		h.deliverENI("p0")
+	}
+	h.mon.mu.Lock()
+	if rec := h.mon.recs["p0"]; rec == nil {
+		h.mon.violate("C11", "C11.fixed-record-released", "ttl-not-elapsed/gone", "record p0 (TTL 48h) is gone 20h after its pod left for the second time")
+	} else {
+		h.mon.r.Count("ttl_records_kept_across_return", 1)
+	}
+	h.mon.mu.Unlock()
 }
 
 func c11ScriptReturnDuringGC(h *peHist, at string) {
